@@ -255,7 +255,10 @@ P('C13', claimed=True, level='other',
               'endings; telescoping lemma: the values add up to the total); Pstutter (one value and one count '
               'per outer pass, a copy of that value per inner pass); Pcollect (func(value, input) yielded), '
               'Pselect/Preject (the value itself yielded iff the function says True/False, nothing otherwise), '
-              'Pwhile (one embed per pass while the test holds). Every other pattern is decided by run-time '
+              'Pwhile (one embed per pass while the test holds), Pclump (a NEW list per pass before anything is '
+              'drawn, filled with exactly the values of this pass, the remainder of the last pass yielded iff '
+              'non-empty, never an earlier list again); the operator patterns Punop/Pbinop/Pnarop (operand streams '
+              'made anew by every __stream__/__embed__, one value per operand per pass). Every other pattern is decided by run-time '
               'contracts: all pattern expressions of depth <= 2 over 27 constructors and ~100k seeded random '
               'deeper ones are streamed and compared with an independent compositional list semantics; '
               'immutability and seeded determinism/support of random patterns are contracts of their own.'),
